@@ -410,7 +410,7 @@ func cachePrograms(thorough bool) []cacheProg {
 					}
 				}
 			}
-			if thorough {
+			{
 				// three threads: two with 2 operations on the colliding key, one single
 				for i := range seqs[3:] {
 					for k := 0; k < 3; k++ {
@@ -622,7 +622,7 @@ func main() {
 	r.Assume("scheduling points at Mutex/WaitGroup/channel operations, goroutine spawn and harness callbacks are sufficient; unsynchronised accesses are the business of the free-running -race pass")
 	r.Assume("instrumentation is regenerated from the repository's current cache.go and common.go on every build (overlay), nothing else in those packages spawns goroutines")
 	exhaustive := !total["cache"].HorizonCut && !total["patches"].HorizonCut
-	r.Finish(fmt.Sprintf("stateless DFS over scheduler choice sequences, preemption bound %d (every execution with <= %d preemptions; non-preemptive choices - blocked thread, channel delivery order - are unbounded), on: RequestCache programs (2 threads x 1-2 ops and 3 threads x 1 op over {Get k1, Get k2, GetMap} x {all fetches ok, first fetch of a key fails} x {empty, pre-populated}); override/relax ComputePatches on universes with 2-3 vulnerabilities (callbacks = resolve-client and matcher calls). states = choice-tree nodes, transitions = scheduling steps, traces = complete executions of the real instrumented code; non-trivial = programs with >1 distinct outcome vector. Separate free-running -race pass: %d runs", bound, bound, raceRuns), exhaustive)
+	r.Finish(fmt.Sprintf("stateless DFS over scheduler choice sequences, preemption bound %d (every execution with <= %d preemptions; non-preemptive choices - blocked thread, channel delivery order - are unbounded), on: RequestCache programs (2 threads x 1-2 ops, 3 threads x 1 op, 3 threads x (2,2,1) ops, 4 threads x Get(k1), over {Get k1, Get k2, GetMap} x {all fetches ok, first fetch of a key fails} x {empty, pre-populated}); override/relax ComputePatches on universes with 2-3 vulnerabilities (callbacks = resolve-client and matcher calls). states = choice-tree nodes, transitions = scheduling steps, traces = complete executions of the real instrumented code; non-trivial = programs with >1 distinct outcome vector. Separate free-running -race pass: %d runs", bound, bound, raceRuns), exhaustive)
 }
 
 func replay(rp string) {
